@@ -134,6 +134,37 @@ Theorem eta_arb_samples : forall fd fb a o, eta_arb fd fb a = OK o ->
 Proof. exact eta_arb_samples_lem. Qed.
 Print Assumptions eta_arb_samples.
 
+(* the area of the sampled form (sum of the samples times the raster, as make_arbitrary_grad computes it) EQUALS the
+   requested area: the midpoint rule is exact for a polyline whose corners lie on raster boundaries; hence the final
+   `abs(grad.area - area) < 1e-8` test can never fail on this path either *)
+Theorem eta_arb_area_exact : forall fd fb a o, eta_arb fd fb a = OK o ->
+  qsum (map (fun w => w * rast a) (a_wave (oa_grad o))) == e_area a /\ a_area (oa_grad o) == e_area a.
+Proof. exact eta_arb_area_exact_lem. Qed.
+Print Assumptions eta_arb_area_exact.
+
+(* ---- TERMINATION / TOTAL CORRECTNESS ----
+   in_domain a : raster > 0, 99 percent max_slew > 0, |grad_start|, |grad_end| <= 99 percent max_grad.
+   Every duration from [d_feasible a] (computable: max of 2, ceil(2|area| / (raster * 1e-8)) and
+   ceil(2 (2*0.99 max_grad + 1e-8) / (0.99 max_slew * raster)) + 2) upwards has a solution: the symmetric ramp pair
+   d/2 + (d - d/2) passes the filter. *)
+Theorem find_solution_eventually_feasible : forall a d, in_domain a -> (d_feasible a <= d)%Z ->
+  find_solution a d <> None.
+Proof. exact eventually_feasible'. Qed.
+Print Assumptions find_solution_eventually_feasible.
+
+(* hence the doubling loop stops, the binary search ends on a solution (neither OutOfFuel nor NoneSolution), the
+   construction passes every check of make_extended_trapezoid and the final area test: for in-domain inputs, systems
+   with sys_ok (the 1e-8 tolerances fit between 99 percent and 100 percent (+eps) of the limits, i.e. max_slew and
+   max_grad above ~1e-6) and fuel S kd / S kb with  d_feasible <= lin_max * 2^(S kd) <= 2^kb  a gradient IS returned.
+   Together with the theorems above: it has the requested end points, raster times, exact area, is within the limits
+   and no ramp pair is shorter. *)
+Theorem eta_total : forall a kd kb, in_domain a -> sys_ok a ->
+  (d_feasible a <= lin_max a * 2 ^ Z.of_nat (S kd))%Z ->
+  (lin_max a * 2 ^ Z.of_nat (S kd) <= 2 ^ Z.of_nat kb)%Z ->
+  exists o, eta (S kd) (S kb) a = OK o.
+Proof. exact eta_total_lem. Qed.
+Print Assumptions eta_total.
+
 (* REFUTED for the algorithm before repair 7df2246 ([eta_old]: binary-search result without rescan):
    on Opts(max_grad=10 mT/m, max_slew=200 T/m/s), grad_start = grad_end = -399118.9, area = -9.94 it returns
    18 raster steps although the ramp pair 8 + 8 exists (a dead space above the linear range: the doubling
@@ -220,3 +251,23 @@ Example C12_example_hypotheses :
              match find_solution (ex_args 0 0 100) d with None => (d <? 24)%Z | Some _ => (24 <=? d)%Z end)
           (seq 0 40) = true.
 Proof. split; [reflexivity|split; [apply Qle_bool_iff; vm_compute; reflexivity|vm_compute; reflexivity]]. Qed.
+
+(* non-vacuity of eta_total: its hypotheses hold for the triangle example with 51 doublings / 53 bisection steps
+   (d_feasible is about 2e15 raster steps because of the 1e-8 tolerance, but the fuel is its logarithm) *)
+Example C12_total_example :
+  in_domain (ex_args 0 0 100) /\ sys_ok (ex_args 0 0 100) /\
+  (d_feasible (ex_args 0 0 100) <= lin_max (ex_args 0 0 100) * 2 ^ Z.of_nat 51)%Z /\
+  (lin_max (ex_args 0 0 100) * 2 ^ Z.of_nat 51 <= 2 ^ Z.of_nat 52)%Z /\
+  exists o, eta 51 53 (ex_args 0 0 100) = OK o.
+Proof.
+  assert (D : in_domain (ex_args 0 0 100)).
+  { unfold in_domain. repeat split; try reflexivity; apply Qle_bool_iff; vm_compute; reflexivity. }
+  assert (S : sys_ok (ex_args 0 0 100)).
+  { unfold sys_ok. repeat split; apply Qle_bool_iff; vm_compute; reflexivity. }
+  assert (B1 : (d_feasible (ex_args 0 0 100) <= lin_max (ex_args 0 0 100) * 2 ^ Z.of_nat 51)%Z)
+    by (vm_compute; discriminate).
+  assert (B2 : (lin_max (ex_args 0 0 100) * 2 ^ Z.of_nat 51 <= 2 ^ Z.of_nat 52)%Z) by (vm_compute; discriminate).
+  repeat split; try assumption; try apply D; try apply S.
+  exact (eta_total_lem _ 50%nat 52%nat D S B1 B2).
+Qed.
+
